@@ -115,6 +115,24 @@ def histStep (root : Str) (w : World) (st : Json) : World × Json :=
   | "eam" =>
     let (w', o) := Export.exportAndMerge w p (gs st "name") (gs st "text")
     (w', outcomeJ o)
+  | "hide" => match w.fs.resolve p with
+    | none => (w, Json.str "io")
+    | some l => match w.fs.lookup l, l.getLast? with
+      | some (.file c), some nm =>
+        let bak := l.dropLast ++ [nm ++ ".bak".toList]
+        ({ w with fs := (w.fs.set bak (.file c)).set l .dir }, Json.str "ok")
+      | _, _ => (w, Json.str "io")
+  | "unhide" => match w.fs.resolve p with
+    | none => (w, Json.str "io")
+    | some l => match l.getLast? with
+      | none => (w, Json.str "io")
+      | some nm =>
+        let bak := l.dropLast ++ [nm ++ ".bak".toList]
+        match w.fs.lookup l, w.fs.lookup bak with
+        | some .dir, some (.file c) =>
+          if w.fs.nodes.any (fun n => isPrefixLoc l n.1 && n.1 ≠ l) then (w, Json.str "io")
+          else ({ w with fs := { (w.fs.set l (.file c)) with nodes := ((w.fs.set l (.file c)).nodes.filter fun n => n.1 ≠ bak) } }, Json.str "ok")
+        | _, _ => (w, Json.str "io")
   | "reset" => ({ w with reg := [], poisoned := false }, Json.str "ok")
   | k => (w, Json.mkObj [("unknown_step", Json.str k)])
 
@@ -130,6 +148,64 @@ def runHist (j : Json) : Json :=
   Json.mkObj [("steps", Json.arr outs.toArray), ("tree", Json.arr tree.toArray),
     ("registry", Json.arr (w.reg.map fun e => Json.arr #[S (Text.replace root "$ROOT".toList (Path.ofComps e.1)), Json.arr (e.2.map S).toArray]).toArray),
     ("poisoned", Json.bool w.poisoned)]
+
+/-! ### universe histories (public entry points) -/
+
+def parseTy (t : Json) : Export.TyInfo :=
+  let op : Option Str := match t.getObjValAs? String "output_path" with
+    | .ok s => some s.toList
+    | .error _ => none
+  let text : Except ExportErr Str := match t.getObjVal? "text" with
+    | .ok tx => match tx.getObjValAs? String "ok" with
+      | .ok s => .ok s.toList
+      | .error _ => match tx.getObjValAs? String "err" with
+        | .ok "CannotBeExported" => .error .cannotBeExported
+        | .ok "Fmt" => .error .fmt
+        | _ => .error .io
+    | .error _ => .error .io
+  let deps : List Nat := match t.getObjVal? "deps" with
+    | .ok (Json.arr ds) => ds.toList.filterMap fun d => match d.getNat? with | .ok n => some n | .error _ => none
+    | _ => []
+  ⟨gs t "ident", op, text, deps⟩
+
+def parseUniverse (j : Json) : Export.Universe :=
+  match j.getObjVal? "types" with
+  | .ok (Json.arr ts) => ts.toList.map parseTy
+  | _ => []
+
+def uStep (u : Export.Universe) (dod root : Str) (w : World) (st : Json) : World × Json :=
+  let ti := match st.getObjValAs? Nat "t" with | .ok n => n | .error _ => 0
+  let ent : Option Export.Entry := match String.ofList (gs st "k") with
+    | "export" => some (.export ti)
+    | "export_all" => some (.exportAll ti)
+    | "export_all_to" => some (.exportAllTo ti (substRoot root (gs st "dir")))
+    | _ => none
+  match ent with
+  | some e => match Export.runEntry u dod w e with
+    | some (w', o) => (w', outcomeJ o)
+    | none => (w, Json.mkObj [("model_fuel_or_index", Json.bool true)])
+  | none => histStep root w st
+
+def treeJ (w : World) (rl : Loc) : Json :=
+  Json.arr (w.fs.nodes.filter (fun n => isPrefixLoc rl n.1 && n.1 ≠ rl) |>.map fun n =>
+    Json.arr #[S (Text.intercalate ['/'] (n.1.drop rl.length)),
+      match n.2 with | .dir => Json.mkObj [("dir", Json.bool true)] | .file c => Json.mkObj [("file", S c)]]).toArray
+
+def runUHist (u : Export.Universe) (j : Json) : Json :=
+  let root := gs j "root"
+  let dod := match j.getObjValAs? String "env" with | .ok s => substRoot root s.toList | .error _ => Gen.DEFAULT_OUT_DIR.toList
+  let steps := match j.getObjVal? "steps" with | .ok (Json.arr a) => a.toList | _ => []
+  let rl := locOf root
+  let (w, outs, snaps) := steps.foldl (fun (acc : World × List Json × List Json) st =>
+    if gs st "k" = "snap".toList then (acc.1, acc.2.1 ++ [Json.str "ok"], acc.2.2 ++ [treeJ acc.1 rl])
+    else let (w', o) := uStep u dod root acc.1 st; (w', acc.2.1 ++ [o], acc.2.2)) (({ fs := initFs root, reg := [] } : World), [], [])
+  Json.mkObj [("steps", Json.arr outs.toArray), ("tree", treeJ w rl), ("snaps", Json.arr snaps.toArray),
+    ("registry", Json.arr (w.reg.map fun e => Json.arr #[S (Text.replace root "$ROOT".toList (Path.ofComps e.1)), Json.arr (e.2.map S).toArray]).toArray),
+    ("poisoned", Json.bool w.poisoned)]
+
+structure DState where
+  chars : List CharRow := []
+  uni : Export.Universe := []
 
 def handle (ops : CharOps) (j : Json) : Json :=
   match String.ofList (gs j "op") with
@@ -175,24 +251,32 @@ def handle (ops : CharOps) (j : Json) : Json :=
         | none => Json.null)]
   | op => Json.mkObj [("unknown_op", Json.str op)]
 
-partial def loop (h : IO.FS.Stream) (out : IO.FS.Stream) (tbl : List CharRow) : IO Unit := do
+partial def loop (h : IO.FS.Stream) (out : IO.FS.Stream) (st : DState) : IO Unit := do
   let line ← h.getLine
   if line.isEmpty then return ()
   let t := line.trimAscii.toString
-  if t.isEmpty then loop h out tbl else
+  if t.isEmpty then loop h out st else
   match Json.parse t with
   | .error e =>
     out.putStrLn (Json.mkObj [("bad_json", Json.str e)]).compress
-    loop h out tbl
+    loop h out st
   | .ok j =>
-    if gs j "op" = "set_chars".toList then
+    let op := String.ofList (gs j "op")
+    if op = "set_chars" then
       let tbl' := parseChars j
       out.putStrLn (Json.mkObj [("ok", Json.num tbl'.length)]).compress
-      loop h out tbl'
+      loop h out { st with chars := tbl' }
+    else if op = "set_universe" then
+      let u := parseUniverse j
+      out.putStrLn (Json.mkObj [("ok", Json.num u.length)]).compress
+      loop h out { st with uni := u }
+    else if op = "uhist" then
+      out.putStrLn (runUHist st.uni j).compress
+      loop h out st
     else
-      out.putStrLn (handle (opsOf tbl) j).compress
-      loop h out tbl
+      out.putStrLn (handle (opsOf st.chars) j).compress
+      loop h out st
 
 def main : IO Unit := do
   let out ← IO.getStdout
-  loop (← IO.getStdin) out []
+  loop (← IO.getStdin) out {}
